@@ -44,7 +44,8 @@ CHECKS = {
     "C15": dict(level="model_checking",
                 text="CacheLoaders.tla is the rule set of cache, auto-reload and loader order; TLC checks the property's six sentences as action "
                      "properties, enumerates every history of 4 operations plus random walks, and the harness compares the engine's observable "
-                     "state (served version, per-loader Load counters, cached names) after every operation. Random Go-driven histories of 80 "
+                     "state (served version, per-loader Load counters, cached names) after every operation, also with the loaders as real "
+                     "FileSystemLoader / CompiledLoader / ChainLoader (over counting loaders, a FileSystemLoader, an ArrayLoader with an empty source). Random Go-driven histories of 80 "
                      "operations are recorded and validated against the same state machine by the TLC trace spec Trace_C15.",
                 ref="DESIGN.md 6/C15", note=_NOTE, technique="TLA+ state machine, TLC exhaustive + simulation, state-by-state replay, TLC trace validation of recorded histories"),
     "C19": _c("Every short string / list / typed slice / map x the filter chains of the property's equations; slice index rules exhaustively; "
